@@ -76,6 +76,7 @@ func (r *Report) floor(family string, n int) {
 
 // Ctx is the loaded program shared by all engines.
 type Ctx struct {
+	blockSummaries map[string]int8
 	RepoDir string
 	Tier    string
 	Fset    *token.FileSet
